@@ -80,3 +80,68 @@ pub fn par_map<T: Sync, R: Send>(threads: usize, items: &[T], f: impl Fn(&T) -> 
     });
     out.into_iter().map(|x| x.expect("worker result")).collect()
 }
+
+
+/// The option setting a sequence of setter calls on one fresh options object denotes: every
+/// setter writes its own field, the last write wins, unset fields keep their defaults.
+pub fn setters_effective(seq: &[(u8, bool)]) -> Opts {
+    let mut o = Opts::from_index(Opts::DEFAULT_INDEX);
+    for &(w, val) in seq {
+        match w % 5 {
+            0 => o.conservative = val,
+            1 => o.pure_integer = val,
+            2 => o.allow_small = val,
+            3 => o.allow_half = val,
+            _ => o.allow_quarter = val,
+        }
+    }
+    o
+}
+
+pub fn setters_name(seq: &[(u8, bool)]) -> String {
+    let n = ["conservative", "pure_integer", "allow_small", "allow_half", "allow_quarter"];
+    seq.iter().map(|&(w, v)| format!("{}({})", n[(w % 5) as usize], v)).collect::<Vec<_>>().join(".")
+}
+
+/// Every sequence of at most three calls of the three `allow_*` setters (6 + 36 + 216) after an
+/// optional length-mode call, plus on/off toggles of each setter: the result of finalizing with
+/// the options object so built must be the result for the setting the sequence denotes
+/// (`expected(index)` as display text), i.e. independent of call order and history.
+pub fn setter_sequences() -> Vec<Vec<(u8, bool)>> {
+    let calls: Vec<(u8, bool)> = [2u8, 3, 4].iter().flat_map(|&w| [(w, true), (w, false)]).collect();
+    let mut out: Vec<Vec<(u8, bool)>> = vec![vec![]];
+    for &a in &calls {
+        out.push(vec![a]);
+        for &b in &calls {
+            out.push(vec![a, b]);
+            for &c in &calls {
+                out.push(vec![a, b, c]);
+                out.push(vec![(0, true), a, b, c]);
+            }
+        }
+    }
+    for w in 0..5u8 {
+        out.push(vec![(w, true), (w, false)]);
+        out.push(vec![(w, false), (w, true)]);
+        out.push(vec![(w, true), (w, false), (w, true)]);
+        out.push(vec![(1, true), (w, true), (1, false), (w, false)]);
+    }
+    out
+}
+
+pub fn case_setters(what: &str, g: &dyn GenObj, seq: &[(u8, bool)], expected: &dyn Fn(usize) -> String) -> Result<(), String> {
+    let eff = setters_effective(seq);
+    let got = format!("{:?}", crate::ctx::catch(|| g.finalize_setters(seq)).map_err(|p| format!("{}: finalize after {} panicked: {}", what, setters_name(seq), p))?.map(|h| h.display()));
+    let want = expected(eff.index());
+    if got != want {
+        return Err(format!(
+            "{}: GeneratorOptions::new().{} denotes the setting {} but finalize_with_options gave {} instead of {}",
+            what,
+            setters_name(seq),
+            opt_name(eff.index()),
+            got,
+            want
+        ));
+    }
+    Ok(())
+}
